@@ -216,6 +216,12 @@ def install(I):
         op = {'wrapping_add': 'Add', 'wrapping_sub': 'Sub', 'wrapping_mul': 'Mul'}[f.rsplit('::', 1)[1]]
         return I.ret(st, I.binop(op, a, b, st))
 
+    @M(r'^(std|core)::mem::size_of::<([iu](8|16|32|64|128|size)|bool|char)>$', 'mem::size_of of a primitive')
+    def m_size_of(I, st, f, args, fr):
+        t = re.search(r'size_of::<(\w+)>$', f).group(1)
+        n = {'bool': 1, 'char': 4, 'usize': 8, 'isize': 8}.get(t) or int(t[1:]) // 8
+        return I.ret(st, I.mk_int(n, 'usize'))
+
     @M(r'^core::num::<impl [iu](8|16|32|64|128|size)>::(checked_add|checked_sub|checked_mul)$', 'int::checked_*')
     def m_chk(I, st, f, args, fr):
         a, b = two(I, st, args)
